@@ -170,7 +170,7 @@ where
                     value = Some(map.next_value()?);
                 }
                 "InlineBinary" => {
-                    if values.is_some() {
+                    if value.is_some() {
                         return Err(A::Error::custom(
                             "\"InlineBinary\" conflicts with \"Value\"",
                         ));
@@ -186,7 +186,7 @@ where
                     inline_binary = Some(val);
                 }
                 "BulkDataURI" => {
-                    if values.is_some() {
+                    if value.is_some() {
                         return Err(A::Error::custom("\"BulkDataURI\" conflicts with \"Value\""));
                     }
 
@@ -210,6 +210,13 @@ where
         let Some(vr) = vr else {
             return Err(A::Error::custom("missing VR field"));
         };
+
+        // a sequence is a list of items, never inline binary data
+        if vr == VR::SQ && inline_binary.is_some() {
+            return Err(A::Error::custom(
+                "\"InlineBinary\" is not applicable to a sequence (VR SQ)",
+            ));
+        }
 
         if let Some(value) = value {
             // deserialize value in different ways
@@ -362,7 +369,11 @@ where
                 PrimitiveValue::from(data).into()
             }
             (Some(values), None) => values,
-            _ => unreachable!(),
+            (Some(_), Some(_)) => {
+                return Err(A::Error::custom(
+                    "\"Value\" conflicts with \"InlineBinary\"",
+                ));
+            }
         };
 
         Ok(JsonDataElement {
